@@ -43,6 +43,57 @@ class Retention:
     value: str
 
 
+LAZY_ITER_CALLS = {'map', 'filter', 'zip', 'iter', 'reversed', 'enumerate', 'itertools.chain', 'it.chain', 'itertools.chain.from_iterable',
+                   'it.chain.from_iterable', 'itertools.islice', 'it.islice', 'itertools.count', 'it.count', 'itertools.repeat', 'it.repeat',
+                   'itertools.cycle', 'it.cycle', 'itertools.filterfalse', 'it.filterfalse', 'itertools.takewhile', 'it.takewhile',
+                   'itertools.dropwhile', 'it.dropwhile', 'itertools.starmap', 'it.starmap', 'itertools.zip_longest', 'it.zip_longest'}
+
+
+def is_memo_decorated(prog: Program, f: FuncInfo) -> bool:
+    for d in f.decorators:
+        target = d.func if isinstance(d, ast.Call) else d
+        ent = prog.resolve(f.module, target)
+        if isinstance(ent, str) and ent in MEMO_DECORATORS:
+            return True
+    return False
+
+
+def returns_one_shot_iterator(prog: Program, f: FuncInfo) -> Optional[str]:
+    """Why the value `f` returns is an iterator that can be consumed only once (None if it is not known to be one): `f` is a generator
+    function, or returns a generator expression, a call of a generator function or of a lazy builtin / itertools object."""
+    from .types import walk_own
+    if any(isinstance(x, (ast.Yield, ast.YieldFrom)) for x in walk_own(f.node)):
+        return 'it is a generator function: each call returns a fresh generator object'
+    for x in walk_own(f.node):
+        if isinstance(x, ast.Return) and x.value is not None:
+            v = x.value
+            if isinstance(v, ast.GeneratorExp):
+                return f'it returns the generator expression `{norm(v)[:50]}`'
+            if isinstance(v, ast.Call):
+                d = dotted(v.func)
+                if d in LAZY_ITER_CALLS:
+                    return f'it returns the lazy iterator `{norm(v)[:50]}`'
+                if isinstance(v.func, ast.Name) and v.func.id in f.nested and \
+                        any(isinstance(y, (ast.Yield, ast.YieldFrom)) for y in walk_own(f.nested[v.func.id].node)):
+                    return f'it returns a generator object (`{norm(v)[:40]}`)'
+                if isinstance(v.func, ast.Attribute) and dotted(v.func.value) in ('self', 'cls') and f.cls is not None:
+                    m = prog.find_method(f.cls, v.func.attr)
+                    if m is not None and m is not f and any(isinstance(y, (ast.Yield, ast.YieldFrom)) for y in walk_own(m.node)):
+                        return f'it returns a generator object (`{norm(v)[:40]}`)'
+    return None
+
+
+def memoised_one_shot(prog: Program, f: FuncInfo) -> Optional[str]:
+    """A memoised function that returns a one-shot iterator hands the SAME, progressively exhausted iterator to every caller."""
+    if not is_memo_decorated(prog, f):
+        return None
+    why = returns_one_shot_iterator(prog, f)
+    if why is None:
+        return None
+    return (f'{f.qualname} is memoised (lru_cache / cache) and {why}: the cache keeps that one iterator object, so every later call with '
+            f'equal arguments receives the same, already (partly) consumed iterator')
+
+
 class Effects:
     def __init__(self, prog: Program, entries: List[FuncInfo], root_classes: List[ClassInfo]):
         self.prog = prog
@@ -53,6 +104,7 @@ class Effects:
         self.unresolved: Set[str] = set()
         self._closure()
         self.long_lived: Set[str] = set()
+        self.long_lived_bases: Set[str] = set()      # base classes of long-lived classes: `self` in their methods is such an instance
         self._long_lived(root_classes)
         self._param_taint: Dict[Tuple[str, str], str] = {}
         self.param_why: Dict[Tuple[str, str], str] = {}
@@ -118,6 +170,9 @@ class Effects:
             if ci is None:
                 continue
             self.long_lived.add(q)
+            for bc in self.prog.mro(ci):
+                if isinstance(bc, ClassInfo):
+                    self.long_lived_bases.add(bc.qualname)
             for sc in self.prog.subclasses(ci, strict=True):
                 work.append(sc.qualname)
             attrs: Set[str] = set()
@@ -303,7 +358,8 @@ class Effects:
             if any(p.arg == name for p in g.params):
                 if name == 'self':
                     ci = self.ty.self_class(g)
-                    if ci is not None and self.is_long_lived_class(ci.qualname) and g.name not in ('__init__', '__new__', '__post_init__'):
+                    if ci is not None and (self.is_long_lived_class(ci.qualname) or ci.qualname in self.long_lived_bases) and \
+                            g.name not in ('__init__', '__new__', '__post_init__'):
                         return f'self:{ci.qualname}'
                     return None
                 if name in ('cls', 'mcs'):
